@@ -315,6 +315,19 @@ def conversion_classes(ctx):
     add(src_dtype="uint8", src_max="two", dst_max="all")
     add(src_dtype="uint16", src_max="one", dst_max="all", dst_sh="s110", iso=True)
     add(src_dtype="uint8", src_max="one", dst_max="two", dst_dtype="uint16")
+    # 24. supervoxel / over-segmentation volumes: compressed_segmentation blocks with MORE THAN 256
+    #     distinct labels of uneven frequency (16-bit codes), raw -> compressed_segmentation and
+    #     back, plain and sharded
+    sv = dict(kind="supervoxel", src_type="segmentation", dst_type="segmentation", method="stride",
+              shape=[40, 16, 16], voxel=[1.0, 1.0, 1.0], tgt=16)
+    add(src_dtype="uint32", dst_enc="compressed_segmentation", **sv)
+    add(src_dtype="uint64", dst_enc="compressed_segmentation", dst_sh="s110", **dict(sv, iso=True))
+    add(src_dtype="uint32", dst_enc="compressed_segmentation", dst_dtype="uint64", dst_bs="bs16",
+        **dict(sv, method="majority"))
+    add(src_dtype="uint32", src_enc="compressed_segmentation", dst_enc="raw", **sv)
+    add(src_dtype="uint64", src_enc="compressed_segmentation", dst_enc="compressed_segmentation", copy="copy",
+        **dict(sv, shape=[24, 24, 17]))
+    add(src_dtype="uint32", dst_enc="compressed_segmentation", channels=2, **dict(sv, shape=[32, 16, 9]))
     return out
 
 
